@@ -24,6 +24,7 @@ type svcSpec struct {
 	SetProtocols bool     `json:"set_protocols,omitempty"`
 	SetCodecs    bool     `json:"set_codecs,omitempty"`
 	SetCompress  bool     `json:"set_compress,omitempty"`
+	NoCompress   bool     `json:"no_compress,omitempty"` // WithNoTargetCompression()
 }
 
 type cfgCase struct {
@@ -57,6 +58,9 @@ func (s svcSpec) options() []vanguard.ServiceOption {
 	}
 	if s.SetCompress {
 		so = append(so, vanguard.WithTargetCompression(s.Compressions...))
+	}
+	if s.NoCompress {
+		so = append(so, vanguard.WithNoTargetCompression())
 	}
 	return so
 }
@@ -137,7 +141,15 @@ func genCfgCase(t *rapid.T) *cfgCase {
 		if rapid.IntRange(0, 2).Draw(t, "svc_override_codec") == 0 {
 			c.Services[i].SetCodecs, c.Services[i].Codecs = true, append([]string(nil), rapid.SampledFrom([][]string{{CodecProto}, {CodecJSON}}).Draw(t, "svc_codecs")...)
 		}
+		switch rapid.IntRange(0, 5).Draw(t, "svc_override_compress") {
+		case 0:
+			c.Services[i].SetCompress, c.Services[i].Compressions = true, append([]string{}, rapid.SampledFrom([][]string{{CompGzip}, {CompDeflate}, {CompGzip, CompDeflate}}).Draw(t, "svc_compress")...)
+		case 1:
+			c.Services[i].NoCompress = true
+		}
 	}
+	// registration order matters for nothing: services are registered in a drawn order
+	c.Services = rapid.Permutation(c.Services).Draw(t, "service_order")
 	// rules: a subset of valid blocks
 	nr := rapid.IntRange(0, 5).Draw(t, "n_cfg_rules")
 	seen := map[string]bool{}
@@ -177,6 +189,7 @@ func injectDefect(t *rapid.T, c *cfgCase) {
 	case "unknown_compression":
 		s := target()
 		s.SetCompress, s.Compressions = true, []string{rapid.SampledFrom([]string{"nope", "br", "GZIP", "zstd"}).Draw(t, "bad_compression")}
+		s.NoCompress = false // (would be applied afterwards and erase the bad name)
 	case "no_protocol":
 		s := target()
 		s.SetProtocols, s.Protocols = true, []string{}
@@ -290,13 +303,19 @@ func checkC17(c *cfgCase) *CheckResult {
 		return res
 	}
 	// --- accepted: honoured? ---
+	probeSvc, probeMethod, probeGzip := routeService, "A", false
 	probe := func(method, target string, form string) (*Outcome, *Scenario) {
 		psc := &Scenario{Backend: Backend{Kind: "ok", Msgs: [][]byte{{}}}}
-		psc.Client = Client{Form: form, Service: routeService, Method: "A", UseRaw: true, RawMethod: method, RawTarget: target, Codec: CodecJSON}
+		psc.Client = Client{Form: form, Service: probeSvc, Method: probeMethod, UseRaw: true, RawMethod: method, RawTarget: target, Codec: CodecJSON}
 		if form == FormGRPCWeb {
 			psc.Client.RawHeader = []KV{{"Content-Type", "application/grpc-web+proto"}}
 			psc.Client.RawBody = []byte{0, 0, 0, 0, 0}
 			psc.Client.Codec = CodecProto
+			if probeGzip {
+				psc.Client.RawHeader = append(psc.Client.RawHeader, KV{"Grpc-Encoding", CompGzip})
+				psc.Client.RawBody = appendFrame(nil, 1, compressBytes(CompGzip, nil))
+				psc.Client.Compression = CompGzip
+			}
 		}
 		psc.Config.Rules = c.Rules
 		po := &Outcome{}
@@ -369,41 +388,72 @@ func checkC17(c *cfgCase) *CheckResult {
 			}
 		}
 	}
-	// per-service options override the defaults: observe the Route service's wire form
-	var route *svcSpec
-	for i := range c.Services {
-		if c.Services[i].Kind == "route" {
-			route = &c.Services[i]
+	// per-service options override the defaults, for every service and whatever the order of
+	// registration: observe the wire form in which each dynamic service's backend is addressed
+	for si := range c.Services {
+		sp := &c.Services[si]
+		switch sp.Kind {
+		case "route":
+			probeSvc, probeMethod = routeService, "A"
+		case "bench":
+			probeSvc, probeMethod = benchService, "Unary"
+		default:
+			continue
 		}
-	}
-	if route != nil {
 		wantProtos := []string{ProtoConnect, ProtoGRPC, ProtoGRPCWeb}
 		if c.Defaults.SetProtocols {
 			wantProtos = c.Defaults.Protocols
 		}
-		if route.SetProtocols {
-			wantProtos = route.Protocols
+		if sp.SetProtocols {
+			wantProtos = sp.Protocols
 		}
 		wantCodecs := []string{CodecProto, CodecJSON}
 		if c.Defaults.SetCodecs {
 			wantCodecs = c.Defaults.Codecs
 		}
-		if route.SetCodecs {
-			wantCodecs = route.Codecs
+		if sp.SetCodecs {
+			wantCodecs = sp.Codecs
 		}
-		po, _ := probe("POST", "/"+routeService+"/A", FormGRPCWeb)
-		if po != nil && po.Panic == "" {
+		wantComp := []string{CompGzip}
+		if c.Defaults.SetCompress {
+			wantComp = c.Defaults.Compressions
+		}
+		if c.Defaults.NoCompress {
+			wantComp = nil
+		}
+		if sp.SetCompress {
+			wantComp = sp.Compressions
+		}
+		if sp.NoCompress {
+			wantComp = nil
+		}
+		for _, gz := range []bool{false, true} {
+			probeGzip = gz
+			po, _ := probe("POST", "/"+probeSvc+"/"+probeMethod, FormGRPCWeb)
+			if po == nil || po.Panic != "" {
+				continue
+			}
 			if po.Backend == nil {
-				res.violate("probe_failed", "c17:options", "gRPC-Web probe of %s/A was not dispatched (status %d)", routeService, po.Rec.Status)
-			} else {
-				if !contains(wantProtos, po.Backend.Protocol) || (contains(wantProtos, ProtoGRPCWeb) && po.Backend.Protocol != ProtoGRPCWeb) {
-					res.violate("option_ignored", "c17:options:protocol", "Route service resolves to protocols %v (defaults %v, service %v) but the backend was addressed with %s", wantProtos, c.Defaults.Protocols, route.Protocols, po.Backend.Protocol)
+				res.violate("probe_failed", "c17:options", "gRPC-Web probe (gzip=%v) of %s/%s was not dispatched (status %d)", gz, probeSvc, probeMethod, po.Rec.Status)
+				continue
+			}
+			if !contains(wantProtos, po.Backend.Protocol) || (contains(wantProtos, ProtoGRPCWeb) && po.Backend.Protocol != ProtoGRPCWeb) {
+				res.violate("option_ignored", "c17:options:protocol", "%s service (registered at position %d) resolves to protocols %v (defaults %v, service %v) but the backend was addressed with %s", sp.Kind, si, wantProtos, c.Defaults.Protocols, sp.Protocols, po.Backend.Protocol)
+			}
+			if !contains(wantCodecs, po.Backend.Codec) || (contains(wantCodecs, CodecProto) && po.Backend.Codec != CodecProto) {
+				res.violate("option_ignored", "c17:options:codec", "%s service (registered at position %d) resolves to codecs %v (defaults %v, service %v) but the backend received codec %q", sp.Kind, si, wantCodecs, c.Defaults.Codecs, sp.Codecs, po.Backend.Codec)
+			}
+			if gz {
+				want := ""
+				if contains(wantComp, CompGzip) {
+					want = CompGzip // the client's own compression is kept when the service accepts it
 				}
-				if !contains(wantCodecs, po.Backend.Codec) || (contains(wantCodecs, CodecProto) && po.Backend.Codec != CodecProto) {
-					res.violate("option_ignored", "c17:options:codec", "Route service resolves to codecs %v (defaults %v, service %v) but the backend received codec %q", wantCodecs, c.Defaults.Codecs, route.Codecs, po.Backend.Codec)
+				if po.Backend.Compression != want && !(want == "" && po.Backend.Compression == "identity") {
+					res.violate("option_ignored", "c17:options:compression", "%s service (registered at position %d) resolves to compressions %v (defaults %v/no=%v, service %v/no=%v): a gzip request must reach the backend with compression %q, got %q", sp.Kind, si, wantComp, c.Defaults.Compressions, c.Defaults.NoCompress, sp.Compressions, sp.NoCompress, want, po.Backend.Compression)
 				}
 			}
 		}
 	}
+	probeSvc, probeMethod, probeGzip = routeService, "A", false
 	return res
 }
